@@ -72,14 +72,14 @@ def run(ctx):
         if rng.random() < 0.2:
             wd = T.mutate(rng, wd)
         wd = gen.rot(wd, rng.randrange(len(wd)))
-        check_typing(ctx, {"cls": "generic:{}:{}".format(kind, enz), "word": wd,
+        ctx.guard(check_typing, {"cls": "generic:{}:{}".format(kind, enz), "word": wd,
                            "spellings": [gen.recase(rng, wd, m) for m in MODES]})
     per = ctx.budget(2, 40)
     for cls in boot.kit_classes():
         for _ in range(per):
             wd, _ = T.kit_instance(rng, cls, runlen=rng.choice([0, 3, 9]))
             wd = gen.rot(wd, rng.randrange(len(wd)))
-            check_typing(ctx, {"cls": asm.cls_name(cls), "word": wd,
+            ctx.guard(check_typing, {"cls": asm.cls_name(cls), "word": wd,
                                "spellings": [gen.recase(rng, wd, m) for m in MODES]})
     for enz in asm.pick_enzymes(rng, ctx.budget(250, 10000)):
         g = asm.gen_wellformed(rng, enz, rng.randint(1, 4))
@@ -107,11 +107,11 @@ def run(ctx):
             elif mode == "modules-lower" and i > 0:
                 e["word"] = e["word"].lower()
         case["case_mode"] = mode
-        check_assembly(ctx, case)
+        ctx.guard(check_assembly, case)
 
 
 def check_case(ctx, case):
     if "vector" in case:
-        check_assembly(ctx, case)
+        ctx.guard(check_assembly, case)
     else:
-        check_typing(ctx, case)
+        ctx.guard(check_typing, case)
